@@ -137,7 +137,7 @@ CHECKS['C11'] = dict(
 CHECKS['C19'] = dict(
     text='Machine-checked: C19_deepcopy_same_explicit (for EVERY tree over all kinds and flag combinations the deep copy has the same kinds, keys, order, scalars, targets, priorities, explicit '
          'delete/allow_new/safe marks, source-level safety, metadata and source files), C19_deepcopy_content, C19_deepcopy_exact (identical whenever the implicit flags are what the ancestors '
-         'imply), with a computed witness that merged trees need not be consistent (C19_inconsistent_tree_copy_differs). The copy model (re-adoption of every child; pickle = identity) is tied '
+         'imply), with a computed witness that merged trees need not be consistent (C19_inconsistent_tree_copy_differs); C19_parsed_document_copy_exact / _interchangeable: EVERY parsed document of mappings, lists and scalars (any tags, metadata, unsafe source) is consistent, so its copy is the very same tree and merges at any position and evaluates exactly like the original. The copy model (re-adoption of every child; pickle = identity) is tied '
          'to copy.deepcopy / pickle by correspondence on all raw flags. Partial: "shares no node", "mutating either never affects the other" are object-identity facts outside a functional model '
          '- decided by the id-disjointness / mutation oracles; "merges and evaluates exactly like the original" by the merge+evaluate oracle.',
     design='4 (C19), 6 (D12)',
